@@ -160,21 +160,31 @@ Fixpoint restore_refs (m : mm) (l : refsnap) (s : state) : outcome :=
   | (e, rl) :: r => seq_outcome (restore_refs_one m e rl s) (restore_refs m r)
   end.
 
-(* second loop: the holders without opposite get the element back at the recorded index *)
-Fixpoint restore_invs_one (m : mm) (e : oid) (l : list (Z * cell)) (s : state) : outcome :=
+(* second loop: the holders without opposite get the element back at the recorded index; the entries of all
+   deleted elements are taken in ascending index (sorted(..., key=index) is stable) *)
+Definition flat_invs (l : invsnap) : list (Z * (oid * cell)) :=
+  flat_map (fun ei => map (fun ic => (fst ic, (fst ei, snd ic))) (snd ei)) l.
+
+Fixpoint ins_sorted (a : Z * (oid * cell)) (l : list (Z * (oid * cell))) : list (Z * (oid * cell)) :=
   match l with
-  | [] => (None, s)
-  | (i, c) :: r =>
-    let o := if f_many (fd m (snd c)) then coll_add_full m s c (Some i) (VObj e)
-             else set_full m s c (VObj e) in
-    seq_outcome o (restore_invs_one m e r)
+  | [] => [a]
+  | b :: r => if fst a <? fst b then a :: l else b :: ins_sorted a r
   end.
 
-Fixpoint restore_invs (m : mm) (l : invsnap) (s : state) : outcome :=
+Definition sort_invs (l : list (Z * (oid * cell))) : list (Z * (oid * cell)) :=
+  fold_left (fun acc a => ins_sorted a acc) l [].
+
+Fixpoint restore_sorted (m : mm) (l : list (Z * (oid * cell))) (s : state) : outcome :=
   match l with
   | [] => (None, s)
-  | (e, il) :: r => seq_outcome (restore_invs_one m e il s) (restore_invs m r)
+  | (i, (e, c)) :: r =>
+    let o := if f_many (fd m (snd c)) then coll_add_full m s c (Some i) (VObj e)
+             else set_full m s c (VObj e) in
+    seq_outcome o (restore_sorted m r)
   end.
+
+Definition restore_invs (m : mm) (l : invsnap) (s : state) : outcome :=
+  restore_sorted m (sort_invs (flat_invs l)) s.
 
 Fixpoint undo (m : mm) (s : state) (c : cmd) {struct c} : outcome * cmd :=
   match c with
